@@ -3,7 +3,9 @@
 Families:
   exh   every history of length <= 2 (thorough: also length 3 over a reduced alphabet) over the alphabet
         `alphabet(kind)` for each of the ten model types
-  rnd   random histories of length <= 12
+  tgt   targeted length-3..5 histories: cancel the most recently labelled variable before a reducing conversion;
+        constraint ; refresh/copy/*=dict/**=/clear ; constraint on PCBO/PCSO
+  rnd   random histories of length <= 12 (with a bias towards cancelling what was just stored)
 After every edit the live object's terms (with dict order), mapping, reverse_mapping, variables, degree,
 num_binary_variables, max_index, num_ancillas, constraints and the raised exception are compared with the
 Lean model (`Qv.Book.trace`); at the end the label sets of to_pubo/to_qubo/to_puso/to_quso.
@@ -23,7 +25,8 @@ RULE = ("edit histories on a fresh model of each of the ten types: all histories
         "constraints on PCBO/PCSO) plus random histories of length <=12; realised with int/str/tuple/mixed "
         "labels; non-trivial = at some step a cached quantity is stale (variables/degree/count differ from the "
         "exact ones) or the history contains a dict product, a copy/refresh or a constraint after another edit")
-ASSUMPTIONS = ["user keys never contain labels of the reserved ancilla form '__a<k>'",
+ASSUMPTIONS = ["dict/mapping order is not compared once a model holds more than ten constraint ancillas ('__a10' < '__a9' as strings)",
+               "user keys never contain labels of the reserved ancilla form '__a<k>'",
                "label sets of reduced forms are compared as: model labels exactly, ancilla labels a contiguous "
                "range from the predicted start (the number of ancillas is C01's subject)"]
 
@@ -188,13 +191,17 @@ def rnd_history(rng, kind):
                 continue
             ncons += 1
         if e["t"] in ("ipow", "imulD"):
-            if e["t"] == "ipow" and e["e"] > 2 and ncons:
-                e = dict(e, e=2)
+            if e["t"] == "ipow" and e["e"] > 1 and ncons:
+                continue      # squaring a model that holds slack ancillas explodes (exhaustive/targeted families
+                              # cover constraint ; **= on the small constraints)
             if e["t"] == "imulD" or e["e"] > 1:
                 if nmul >= (1 if ncons else 2) or ncons > 2:
                     continue
                 nmul += 1
         hist.append(e)
+        if e["t"] == "set" and e["v"] != "0" and rng.random() < 0.25:
+            # cancel what was just stored: its freshly labelled variables become stale with the largest labels
+            hist.append(S(list(e["k"]), "0") if rng.random() < 0.5 else A(list(e["k"]), "sub", e["v"]))
     return hist
 
 
@@ -555,8 +562,14 @@ def compare(case, steps, conv, model):
         return ("consfresh", None, "ConsFresh false")
     if len(ms) != len(steps):
         return ("length", len(steps), len(ms))
+    loose = False
     for i, (a, b) in enumerate(zip(steps, ms)):
+        # DESIGN §3.1: '__a10' < '__a9' as strings while ANC+9 < ANC+10 — the one non-monotone spot of the label
+        # map; once a model has more than ten ancillas, dict/mapping *order* is exempt (contents still compared)
+        loose = loose or (a["anc"] is not None and a["anc"] > 10)
         for f in STEP_FIELDS:
+            if loose and f in ("order", "maporder"):
+                continue
             if a[f] != b[f]:
                 return ("step%d:%s" % (i, f), a[f], b[f])
         if a["cons"] != group_cons(b["cons"]):
@@ -632,6 +645,44 @@ def exhaustive_cases(ctx):
     return cases
 
 
+def targeted_cases(ctx):
+    """length-3/4 histories aimed at stale *top* labels and at the constraint state across rebuilds:
+    (base of degree >= 3) ; (introduce a fresh label, so it gets the largest mapping label) ; (cancel it) —
+    then the reducing conversions must still start their ancillas above every mapping label;
+    (constraint) ; (refresh | copy | *= dict | **= | clear) ; (constraint) on PCBO/PCSO."""
+    bases = [S([0, 1, 2], "1"), S([0, 0, 1, 2, 3], "1"), {"t": "iaddD", "q": [[[0, 1, 2], "2"], [[1, 3], "1"]]},
+             S([1, 2, 3, 0], "-1")]
+    intros = [(S([5], "1"), [S([5], "0"), A([5], "sub", "1"), {"t": "isubD", "q": [[[5], "1"]]}, A([5], "mul", "0")]),
+              (S([4, 5], "2"), [S([5, 4], "0"), A([4, 5], "add", "-2"), {"t": "update", "q": [[[4, 5], "0"]]}]),
+              (A([0, 5], "add", "3"), [A([5, 0], "sub", "3"), S([0, 5], "0")]),
+              ({"t": "iaddD", "q": [[[5], "1"], [[6], "1"]]}, [{"t": "isubD", "q": [[[6], "1"]]}, S([6], "0")])]
+    out, i = [], 0
+    for kind in ("PUBO", "PUSO", "PCBO", "PCSO", "QUBO", "QUSO"):
+        for b in bases:
+            if kind in ("QUBO", "QUSO"):
+                b = S([0, 1], "1")
+            for intro, cancels in intros:
+                for c in cancels:
+                    for tail in ([], [{"t": "copy"}], [A([1], "add", "1")]):
+                        if tail and tail[0]["t"] == "copy":
+                            continue          # a copy re-enumerates: nothing stale afterwards
+                        out.append(dict(kind=kind, hist=[b, intro, c] + tail, style=STYLES[(i + ctx.seed) % 4]))
+                        i += 1
+            if kind in ("QUBO", "QUSO"):
+                break
+    mids = [{"t": "refresh"}, {"t": "copy"}, {"t": "imulD", "q": [[[0], "1"], [[], "1"]]}, {"t": "ipow", "e": 2},
+            {"t": "clear"}, {"t": "imulC", "c": "0"}]
+    for kind in ("PCBO", "PCSO"):
+        for c1 in CONS[:5]:
+            for mid in mids:
+                for c2 in (CONS[0], CONS[2]):
+                    out.append(dict(kind=kind, hist=[c1, mid, c2], style=STYLES[(i + ctx.seed) % 4]))
+                    out.append(dict(kind=kind, hist=[c1, A([7], "add", "3"), A([7], "sub", "3"), mid, c2],
+                                    style=STYLES[(i + ctx.seed) % 4]))
+                    i += 1
+    return out
+
+
 def random_cases(ctx, n):
     rng = ctx.rng
     out = []
@@ -659,6 +710,7 @@ def check(ctx):
     ex = exhaustive_cases(ctx)
     for i in range(0, len(ex), 4000):
         process(ctx, ex[i:i + 4000], "exh")
+    process(ctx, targeted_cases(ctx), "tgt")
     process(ctx, random_cases(ctx, ctx.scale(1500, 12000)), "rnd")
     if ctx.diffs and not ctx.violations:
         search(ctx)
